@@ -14,3 +14,5 @@ import CantoVerif.Props.C01
 import CantoVerif.Props.C02
 import CantoVerif.Props.C08
 import CantoVerif.Props.C09
+import CantoVerif.Bridge.CoinswapFormulas
+import CantoVerif.Bridge.CoinswapFacts
